@@ -622,7 +622,9 @@ def writable_array(obj, **kwargs):
         arr = np.asarray(obj, **kwargs)
         yield arr
     finally:
-        if arr is not None:
+        if arr is not None and arr is not obj:
+            # No need to write back if `obj` itself was modified; this also
+            # avoids `obj[:]`, which fails for zero-dimensional arrays
             obj[:] = arr
 
 
